@@ -641,7 +641,11 @@ func (p *Prog) RenderFunc(f *Func, m Mode) string {
 }
 
 // RenderReg renders the registry file (identical text for every implementation).
-func (p *Prog) RenderReg() string {
+func (p *Prog) RenderReg() string { return p.RenderRegPrefixed("") }
+
+// RenderRegPrefixed renders the registry with every entry name prefixed (several variants
+// of one program linked into one binary).
+func (p *Prog) RenderRegPrefixed(prefix string) string {
 	var b strings.Builder
 	fmt.Fprintf(&b, "package %s\n\nimport \"verif/sim/vrt\"\n\nvar Entries = []vrt.Entry{\n", p.Pkg)
 	for _, f := range p.Files {
@@ -674,9 +678,9 @@ func (p *Prog) RenderReg() string {
 			}
 			args += "}"
 			if fn.Gen {
-				fmt.Fprintf(&b, "\t{Name: %q, Arity: %d, Args: %s, Inf: %v, New: func(a []int) vrt.Iter { return vrt.Wrap[%s](%s) }},\n", fn.Name, len(fn.Params), args, fn.Inf, fn.Elem, call)
+				fmt.Fprintf(&b, "\t{Name: %q, Arity: %d, Args: %s, Inf: %v, New: func(a []int) vrt.Iter { return vrt.Wrap[%s](%s) }},\n", prefix+fn.Name, len(fn.Params), args, fn.Inf, fn.Elem, call)
 			} else {
-				fmt.Fprintf(&b, "\t{Name: %q, Arity: %d, Args: %s, Call: func(a []int) int { return %s }},\n", fn.Name, len(fn.Params), args, call)
+				fmt.Fprintf(&b, "\t{Name: %q, Arity: %d, Args: %s, Call: func(a []int) int { return %s }},\n", prefix+fn.Name, len(fn.Params), args, call)
 			}
 		}
 	}
